@@ -1,4 +1,5 @@
 //! rtcmon – runtime monitors for restsend/rustrtc (see /verif/DESIGN.md).
+pub mod alloc_count;
 pub mod common;
 pub mod engines;
 pub mod rig;
